@@ -38,7 +38,13 @@ partial def loop (stdin : IO.FS.Stream) (st : DS) (tot : Totals) (skipping : Boo
                else if line.startsWith "snap\t" then { tot with snaps := tot.snaps + 1 }
                else { tot with fns := tot.fns + 1 }
     match (handleLine line).run st with
-    | .ok (_, st') => loop stdin st' tot false caseHdr
+    | .ok (_, st') =>
+      -- both sides panicked with different kinds: a (soft) difference; the heaps are still comparable, so the
+      -- snapshots that follow are judged (a panic that left the receiver modified shows there)
+      for msg in st'.notes.reverse do
+        IO.println s!"DIFF\t{tot.lines}\t{caseHdr.replace "\t" " "}\t{msg}\t{line.replace "\t" " ; "}"
+      let tot := { tot with diffs := tot.diffs + st'.notes.length }
+      loop stdin { st' with notes := [] } tot false caseHdr
     | .error msg =>
       let isSpec := msg.startsWith "SPEC"
       let isFn := line.startsWith "fn\t"
